@@ -35,3 +35,19 @@ Proof.
   destruct (znth_opt (sm_sources m') i); [cbn [option_map]; rewrite join_rule_spec|]; reflexivity.
 Qed.
 Print Assumptions C13_join_rule.
+
+(* the finished map reports the sources, names, contents, ignore list, file, debug id and source root that were set *)
+Theorem C13_finished_reports : forall b,
+  let m := into_sourcemap b in
+  sm_sources m = b_sources b /\ sm_names m = b_names b /\ sm_file m = b_file b /\ sm_debug_id m = b_debug_id b
+  /\ sm_root m = b_root b /\ sm_tokens m = isort tok_key (b_tokens b)
+  /\ (forall j, get_source_contents m j = b_get_source_contents b j)
+  /\ (forall j, In j (sm_ignore m) <-> In j (b_ignore b)).
+Proof. exact BuilderTokens.C13_finished_reports. Qed.
+Print Assumptions C13_finished_reports.
+Theorem C13_setters_last : forall b,
+  (forall f, b_file (b_set_file f b) = f) /\ (forall d, b_debug_id (b_set_debug_id d b) = d) /\ (forall r, b_root (b_set_source_root r b) = r)
+  /\ (forall id j, In j (b_ignore (b_add_to_ignore_list id b)) <-> j = id \/ In j (b_ignore b))
+  /\ (forall id c b', b_set_source_contents id c b = Ok b' -> forall j, b_get_source_contents b' j = if j =? id then c else b_get_source_contents b j).
+Proof. exact BuilderTokens.C13_setters_last. Qed.
+Print Assumptions C13_setters_last.
